@@ -586,6 +586,8 @@ class ExprMixin:
         b = self.deref(base, st)
         if isinstance(b, VOpt):
             b = self.unopt(b, st, node, "subscripted value")
+        if isinstance(b, VNone) and self.spec_depth:
+            return [(st, fresh(INT, "subscript_of_none"))]      # only meaningful under a guard that excludes None
         if isinstance(b, VVal):
             from .absobj import Comp
             return [(st, VVal(Comp(b.t, to_int(self.deref(idx, st)))))]
@@ -596,6 +598,8 @@ class ExprMixin:
             return self.call(bm, [idx], {}, st, node)
         if isinstance(b, VSeq):
             idx_d = self.deref(idx, st)
+            if isinstance(idx_d, VOpt) and isinstance(idx_d.inner, VSeq):
+                idx_d = self.unopt(idx_d, st, node, "index array")
             if isinstance(idx_d, VSeq) and isinstance(idx_d.etype, TBool):   # boolean mask: order preserving filter
                 from .libtorch import seq_filter
                 res = seq_filter(st, self, b.len, lambda p: idx_d.elem(p).t, b.elem, b.etype, "mask")
